@@ -74,8 +74,6 @@ class Collector:
             self.fail(v.what, case() if callable(case) else case,
                       v.detail, innermost_dd_frame(v))
             return False
-        except RecursionError:
-            raise
         except Exception as e:
             frame = innermost_dd_frame(e)
             if frame == 'harness':
